@@ -235,3 +235,32 @@ Theorem C19_ht_strvp_run_refines_fnv :
     ht_justified ops tr.
 Proof. exact ht_strvp_run_refines_fnv. Qed.
 Print Assumptions C19_ht_strvp_run_refines_fnv.
+
+(* the main statement with literal equality: return values, freed entries, get results,
+   counts and SORTED iteration of the model run equal those of the specification run, for
+   any total order [leb] on the entries used for sorting *)
+Theorem C19_ht_run_refines_sorted :
+  forall (K V : Type) (keq : K -> K -> bool) (hash : K -> Z -> Z)
+         (leb : @ht_entry K V -> @ht_entry K V -> bool) (vnull : V) (seed : Z) (ops : list (@ht_op K V)),
+    (forall a, keq a a = true) -> (forall a b, keq a b = keq b a) ->
+    (forall a b c, keq a b = true -> keq b c = true -> keq a c = true) ->
+    (forall a b s, keq a b = true -> hash a s = hash b s) ->
+    (forall a b, leb a b = true \/ leb b a = true) ->
+    (forall a b c, leb a b = true -> leb b c = true -> leb a c = true) ->
+    (forall a b, leb a b = true -> leb b a = true -> a = b) ->
+    Forall (fun op => ~ ht_op_can_fail op) ops ->
+    exists tr, ht_run_model keq hash vnull seed ops = Ok tr /\
+      map (ht_obs_canon (ht_sort leb)) tr =
+      map (ht_obs_canon (ht_sort leb)) (ht_run_spec keq vnull ops []).
+Proof. exact @ht_run_refines_sorted. Qed.
+Print Assumptions C19_ht_run_refines_sorted.
+
+(* instance: numeric keys and values sorted by key then value, ANY hash function *)
+Theorem C19_ht_szvp_run_refines_sorted :
+  forall (hash : Z -> Z -> Z) (seed : Z) (ops : list (@ht_op Z Z)),
+    Forall (fun op => ~ ht_op_can_fail op) ops ->
+    exists tr, ht_run_model ht_szvp_keq hash 0%Z seed ops = Ok tr /\
+      map (ht_obs_canon (ht_sort ht_zz_leb)) tr =
+      map (ht_obs_canon (ht_sort ht_zz_leb)) (ht_run_spec ht_szvp_keq 0%Z ops []).
+Proof. exact ht_szvp_run_refines_sorted. Qed.
+Print Assumptions C19_ht_szvp_run_refines_sorted.
